@@ -12,11 +12,18 @@ PROP = {'lean_props': ['Comrak.Props.C20'],
                        'split_complete_partial',
                        'split_complete_eof_partial',
                        'lines_shift',
-                       'unrecognised_is_ordinary'],
+                       'unrecognised_is_ordinary',
+                       'html_front_matter_absent',
+                       'html_front_matter_absent_doc',
+                       'xml_front_matter_is_empty_element',
+                       'xml_front_matter_one_element_doc',
+                       'cm_front_matter_verbatim'],
  'strength': 'full for the splitter on the soundness side (what is taken is always a delimiter-enclosed leading block; look-alikes are never taken) '
              'and for the line shift; completeness is proved on uniformly terminated texts whose body lines do not start with the delimiter and '
-             'refuted outside (three counterexample theorems = three known findings); verbatim CommonMark emission, absence from HTML/XML and '
-             '"the rest renders as on its own" are whole-parser facts covered by the search on the real code',
+             'refuted outside (three counterexample theorems = three known findings); the formatters\' treatment of the FrontMatter node is '
+             'proved on the three formatter models (HTML: no token, and Document[FrontMatter, rest] = Document[rest] token for token; XML: one '
+             'self-closing <frontmatter /> element and nothing else changes; CommonMark: the output starts with the payload byte for byte, '
+             'for every width); that the rest *parses* as on its own is a whole-parser fact covered by the search on the real code',
  'trusted_base': ['byte-level reading of &str offsets (exact on valid UTF-8: every slice offset follows a complete match of a valid UTF-8 pattern)',
                   'the independent line-based reading of the statement used by the search oracle (ref_split in harness/src/c20.rs)'],
  'assumptions': ['input and delimiter are valid UTF-8; the delimiter is non-empty and contains no line break (the property\'s quantifier)',
@@ -34,13 +41,19 @@ TEXT = {'text': 'Proof. strings::split_off_front_matter is modelled exactly (BOM
          'unterminated), split_complete_partial / split_complete_eof_partial (a delimiter line, a body of at least one line none of whose lines '
          'starts with the delimiter, the delimiter line again, under one line-end convention, is split exactly there, one following blank line '
          'included), lines_shift (the block parser gets exactly the lines of the rest, numbered after the front matter) and '
-         'unrecognised_is_ordinary. Tie to the code: the real split_off_front_matter (hook) equals the model on every string of <= 8/6/6 symbols '
+         'unrecognised_is_ordinary. Renderer half, on the formatter models (Html.lean, Xml.lean, Cm.lean; tied to the real formatters by C10/C09/C17 '
+         'byte-equality correspondence): html_front_matter_absent (the node writes no token and leaves the writer state alone, every context and '
+         'option vector), html_front_matter_absent_doc (the tokens of Document[FrontMatter fm, rest...] are those of Document[rest...], no shape '
+         'hypothesis), xml_front_matter_is_empty_element / xml_front_matter_one_element_doc (XML is not absent: exactly one <frontmatter /> '
+         'line is inserted after the document start tag, payload never written), cm_front_matter_verbatim (for every option vector including '
+         'every width and every following siblings the CommonMark output starts with the payload byte for byte: an invariant of the line-assembly '
+         'state machine, nothing written later reaches back before the recorded break position) and cm_front_matter_alone. Tie to the code: the real split_off_front_matter (hook) equals the model on every string of <= 8/6/6 symbols '
          'over {delimiter bytes, other, LF, CR, BOM} for three delimiters and on generated documents; the parser\'s FrontMatter literal and tapped '
          'process_line calls equal the model\'s parseDoc. Search on the real code against an independent line-based reading of the statement: '
          'recognised exactly, CommonMark = front matter verbatim + rest, HTML/XML = those of the rest alone (sourcepos lines shifted), look-alikes '
          'render as with the option off. Three genuine incompleteness defects (empty body; body line starting with the delimiter when the closing '
          'delimiter ends the input; mixed line endings preferring a later CRLF delimiter) are Lean counterexamples and known findings.',
- 'note': 'Trusted: Lean kernel + standard axioms; harness/driver/hooks; the renderers\' treatment of the FrontMatter node is searched, not proved.',
+ 'note': 'Trusted: Lean kernel + standard axioms; harness/driver/hooks; the renderers\' treatment of the FrontMatter node is proved on the formatter models and searched on the real code.',
  'technique': 'Lean 4 theorems about an exact model of the splitter (structure lemma by case analysis over the code\'s branches) + exhaustive/random '
               'differential correspondence through cfg(comrak_verif) hooks + with/without-front-matter search on the real parser and formatters',
  'design_ref': 'DESIGN.md section 7, C20'}
